@@ -1921,6 +1921,44 @@ def pattern_div_u16(context, tree, c0, c1):
     return dst
 
 
+# There is no 8 bit imul, and the 8 bit idiv and div leave the remainder in
+# ah. Calculate 8 bit products, quotients and remainders in 32 bits:
+@isa.pattern("reg8", "MULI8(reg8, reg8)", size=12)
+@isa.pattern("reg8", "MULU8(reg8, reg8)", size=12)
+def pattern_mul_8(context, tree, c0, c1):
+    a = pattern_i8toi32(context, tree, c0)
+    b = pattern_i8toi32(context, tree, c1)
+    return pattern_i32toi8(context, tree, pattern_mul_32(context, tree, a, b))
+
+
+@isa.pattern("reg8", "DIVI8(reg8, reg8)", size=22)
+def pattern_div_i8(context, tree, c0, c1):
+    a = pattern_i8toi32(context, tree, c0)
+    b = pattern_i8toi32(context, tree, c1)
+    return pattern_i32toi8(context, tree, pattern_div_i32(context, tree, a, b))
+
+
+@isa.pattern("reg8", "DIVU8(reg8, reg8)", size=22)
+def pattern_div_u8(context, tree, c0, c1):
+    a = pattern_u8toi32(context, tree, c0)
+    b = pattern_u8toi32(context, tree, c1)
+    return pattern_i32toi8(context, tree, pattern_div_u32(context, tree, a, b))
+
+
+@isa.pattern("reg8", "REMI8(reg8, reg8)", size=22)
+def pattern_rem_i8(context, tree, c0, c1):
+    a = pattern_i8toi32(context, tree, c0)
+    b = pattern_i8toi32(context, tree, c1)
+    return pattern_i32toi8(context, tree, pattern_remi32(context, tree, a, b))
+
+
+@isa.pattern("reg8", "REMU8(reg8, reg8)", size=22)
+def pattern_rem_u8(context, tree, c0, c1):
+    a = pattern_u8toi32(context, tree, c0)
+    b = pattern_u8toi32(context, tree, c1)
+    return pattern_i32toi8(context, tree, pattern_rem_u32(context, tree, a, b))
+
+
 @isa.pattern("reg64", "ANDI64(reg64, rm64)", size=4)
 @isa.pattern("reg64", "ANDU64(reg64, rm64)", size=4)
 def pattern_and64(context, tree, c0, c1):
